@@ -108,6 +108,7 @@ def end_case(verb, place, how, pool=True, sessions=0, size=None, rest=None, list
     end): the dispatcher must wait for its cancelled tasks, Server.close() must not return before they are done"""
     steps, gates, files, block, payload = xfer.transfer_setup(verb, place, size=size, rest=rest, listen=listen)
     steps = steps + [["snap", "held"]] + end_steps(how)
+    stalled = place[0] == "stalled" or "retr_stalled" in place[1:]
     if slow_close:
         gates = gates + [["close", 1]]
         steps = steps + [["snap", "unwinding"], ["release", "close"]]
@@ -116,6 +117,7 @@ def end_case(verb, place, how, pool=True, sessions=0, size=None, rest=None, list
         "verb": verb, "place": list(place), "how": how, "steps": steps, "gates": gates, "pool": pool, "files": files,
         "payload": payload, "block": block, "sessions": sessions, "wait_future_timeout": 50, "listen": listen,
         "slow_close": slow_close, "actors": ACTORS[:actors],
+        **({"water": [8, 16]} if stalled else {}),
     }
     if place[0] == "bind":
         case["bind_gate"] = place[1]
@@ -222,10 +224,13 @@ def model_queries(case, r, facts):
     pre = pre_of(r)
     if pre is None or pre["abs"] is None:
         return None
-    if len(pre["abs"]["workers"]) > 1:
+    if len(pre["abs"]["workers"]) > 2:
         return None
     wabs = xfer.resolve_workers(pre, facts, case["block"], ever_data=bool(r.data))
-    evs = xfer.model_trace(pre["abs"], wabs)
+    try:
+        evs = xfer.model_trace(pre["abs"], wabs)
+    except ValueError:
+        return None  # a combination of stages of several transfers the canonical trace builder does not cover: oracle only
     end = xfer.END_EVENT[case["how"]]
     return [(0, [case["pool"], evs, False]), (0, [case["pool"], evs + [[end]], True])], wabs, pre
 
@@ -235,7 +240,7 @@ def run_cases(ctx, cases, facts, stream):
     for case in cases:
         r = xfer.run_case(case)
         ctx.traces_impl += 1
-        q = model_queries(case, r, facts)
+        q = model_queries(case, r, facts) if facts is not None else None
         runs.append((case, r, q))
         if q is not None:
             queries += q[0]
@@ -306,6 +311,10 @@ def run_cases(ctx, cases, facts, stream):
     return xs
 
 
+TWO_PAIRS = [("stor", "stor"), ("stor", "retr_stalled"), ("stor", "retr_gate"), ("retr_stalled", "stor"),
+             ("retr_gate", "stor"), ("retr_gate", "retr_stalled"), ("list_gate", "stor"), ("list_gate", "retr_stalled")]
+
+
 def stage_cases(thorough):
     cases = []
     B = xfer.BLOCK
@@ -318,6 +327,8 @@ def stage_cases(thorough):
             places += [("sent", 0), ("sent", 1), ("sent", B), ("sent", 2 * B + 1)]
         if verb == "RETR":
             places += [("noread",)]
+        if verb in ("RETR", "LIST", "MLSD"):
+            places += [("stalled",)]  # data peer connected, not reading, the transport's write buffer full
         if verb in ("LIST", "MLSD"):
             places += [("gate", "list", 1), ("gate", "list", 3), ("gate", "stat", 2), ("late_gate", "stat", 1)]
             if verb == "LIST":
@@ -345,6 +356,11 @@ def stage_cases(thorough):
             if verb in ("RETR", "STOR", "APPE"):
                 cases.append(end_case(verb, ("gate", "read" if verb == "RETR" else "write", 2), how, slow_close=True))
                 cases.append(end_case(verb, ("sent", 5) if verb != "RETR" else ("gate", "seek", 1), how, slow_close=True, rest=1))
+    # two transfers alive in the session that ends
+    for first, second in TWO_PAIRS:
+        for how in HOWS:
+            for pool in ((True, False) if thorough else (True,)):
+                cases.append(end_case(None, ("two", first, second), how, pool=pool))
     for listen in ("PASV", "EPSV"):
         for where in ("login", "pasv", "pasv_dconn"):
             for how in HOWS:
@@ -397,22 +413,26 @@ def correspondence(ctx, thorough=None):
     ctx.extra["rule"] = (
         "A (stage cuts): verb x stage the session is held at (waiting for the data connection; handler / open / seek / k-th "
         "read or write / directory step / stat / close suspended, data connection before or after 150; after j bytes of an "
-        "upload; peer not reading; listener start-up before / after the bind, PASV and EPSV; idle with / without listener / "
+        "upload; peer not reading, also with the transport's write buffer full (close() lingers until flushed, as an asyncio "
+        "transport does); TWO transfers alive in the ending session; listener start-up before / after the bind, PASV and EPSV; idle with / without listener / "
         "data connection; transfer finished) x way of ending (peer reset, peer close, control connection lost, QUIT, handler "
         "exception, idle timeout, Server.close()) x data-port pool on/off x 0 or 2 other sessions.  B (event cuts): 15 "
         "scripts covering all 25 verbs and all transfer kinds, cut after every network event k = 0..N x (reset, close, "
         "control lost, Server.close()).  Each case runs the real server once; non-trivial = new (script/verb, position, "
         "ending, pool, sessions) tuple."
     )
-    facts = xfer.facts_of(ctx)
-    obligations(ctx)
+    if ctx.exe is not None:
+        facts = xfer.facts_of(ctx)
+        obligations(ctx)
+    else:
+        facts = None  # the model did not build (reported as a broken obligation): the oracle still judges every case
     a = stage_cases(thorough)
     ctx.count("stage_cases", len(a))
     xs = run_cases(ctx, a, facts, "stage")
     b = event_cases(ctx, thorough)
     ctx.count("event_cases", len(b))
     xs += run_cases(ctx, b, facts, "event")
-    ok, out = core.vm_crosscheck(EXTRACT, xs[:40])
+    ok, out = core.vm_crosscheck(EXTRACT, xs[:40]) if ctx.exe is not None else (True, "no model")
     ctx.extra["vm_compute_crosscheck"] = {"cases": len(xs[:40]), "agree": ok}
     if not ok:
         ctx.obligation_broken("extraction-crosscheck", out)
@@ -425,7 +445,7 @@ def correspondence(ctx, thorough=None):
 
 
 def search(ctx):
-    if ctx.violations or ctx.tier == "thorough" or ctx.exe is None:
+    if ctx.violations or ctx.tier == "thorough":
         return
     try:
         correspondence(ctx, thorough=True)
